@@ -215,6 +215,10 @@ def ex_command(draw, depth=0):
     if k == 17:
         return draw(st.sampled_from(["e", "e!", "ew", "ew!"])) + " " + draw(st.sampled_from(["", "+2 ", "+$ ", "+/a/ ", "+d "])) + \
             draw(st.sampled_from(FILES + ["", "%", "#", "=f"])) + "\n"
+    if k == 18 and draw(st.integers(0, 5)) == 0:
+        # the buffer table exactly full (16), then buffers deleted / more files opened
+        return "".join("e! z%d\n" % i for i in range(1, draw(st.sampled_from([14, 15, 15, 16, 17])))) + \
+            draw(st.sampled_from(["b !\n", "b !\nb !\ne! zz\n", "b 3\nb !\ne zq\n", "b ~\nb !\n", "e! zlast\nb !\n"]))
     if k == 18:
         return "b" + draw(st.sampled_from(["", " 1", " 2", " 3", " 9", " +", " -", " %", " #", " ^", " !", " ~", "! 2", " x"])) + "\n"
     if k == 19:
